@@ -162,6 +162,40 @@ pub fn record(out: &mut dyn Write, r: &mut ChaCha20Rng, n: usize) {
         }
         genops!(G1, "G1");
         genops!(G2, "G2");
+        // Jacobian representatives (x z^2, y z^3, z) of k*G1 whose z has a sparse MONTGOMERY form (2^256, 2^320, 1,
+        // p - 1 ...): a limb-wise predicate on coordinates (is it zero? are two equal?) that skips limbs shows here
+        {
+            type PO = <Ours as Pairing>::G1;
+            type PR = <Refe as Pairing>::G1;
+            type FO = <Ours as Pairing>::BaseField;
+            type FR = <Refe as Pairing>::BaseField;
+            for (zi, e) in [128u64, 64, 384, 192, 320, 1].iter().enumerate() {
+                for k in [1u64, 2, 5] {
+                    let zo = FO::from(2u64).pow([*e]).inverse().unwrap();
+                    let zr = FR::from(2u64).pow([*e]).inverse().unwrap();
+                    let ao = (g1o * SO::from(k)).into_affine();
+                    let ar = (g1r * SR::from(k)).into_affine();
+                    let (xo, yo) = ao.xy().unwrap();
+                    let (xr, yr) = ar.xy().unwrap();
+                    let jo = PO::new_unchecked(*xo * zo * zo, *yo * zo * zo * zo, zo);
+                    let jr = PR::new_unchecked(*xr * zr * zr, *yr * zr * zr * zr, zr);
+                    // k*G through the special representative, and (k+1)*G as representative + G
+                    for (what, o, rf, key) in [
+                        ("into_affine", ser(&jo.into_affine(), true), ser(&jr.into_affine(), true), k),
+                        ("+ G", ser(&(jo + g1o).into_affine(), true), ser(&(jr + g1r).into_affine(), true), k + 1),
+                        ("double", ser(&jo.double().into_affine(), true), ser(&jr.double().into_affine(), true), 2 * k),
+                        ("+= affine G", ser(&{ let mut t = jo; t += &g1o.into_affine(); t }.into_affine(), true),
+                            ser(&{ let mut t = jr; t += &g1r.into_affine(); t }.into_affine(), true), k + 1),
+                    ] {
+                        let terms: Vec<Vec<u8>> = (0..key).map(|_| one.clone()).collect();
+                        let unc_o = <PO as CurveGroup>::Affine::deserialize_compressed(&o[..]).map(|p| ser(&p, false)).unwrap_or_default();
+                        let unc_r = <PR as CurveGroup>::Affine::deserialize_compressed(&rf[..]).map(|p| ser(&p, false)).unwrap_or_default();
+                        emit(out, json!({"k":"blsmul","grp":"G1","what":format!("jacobian z=2^-{} #{} {}", e, zi, what),"terms":terms,"ours":o,"ref":rf,
+                            "ours_unc":unc_o,"ref_unc":unc_r,"ours_sum":o,"cross":true}));
+                    }
+                }
+            }
+        }
     }
     emit(out, json!({"k":"reset","build":BUILD}));
     // non-canonical coordinate strings (uncompressed readers, validated and unchecked)
